@@ -30,6 +30,7 @@ import (
 
 	"github.com/IrineSistiana/mosdns/v5/pkg/dnsutils"
 	"github.com/IrineSistiana/mosdns/v5/pkg/pool"
+	"github.com/IrineSistiana/mosdns/v5/pkg/verifhook"
 )
 
 var (
@@ -104,6 +105,7 @@ func (dc *TraditionalDnsConn) exchange(ctx context.Context, q []byte) (*[]byte, 
 		return nil, ErrTDCTooManyQueries
 	}
 	defer dc.deleteQueueC(assignedQid)
+	verifhook.PointArg("tdc.exchange.queued", dc.c)
 
 	// Reminder: Set write deadline here is not very useful to avoid dead connections.
 	// Typically, a write operation will time out only if its socket buffer is full.
@@ -120,7 +122,9 @@ func (dc *TraditionalDnsConn) exchange(ctx context.Context, q []byte) (*[]byte, 
 	// The Read deadline will be refreshed in DnsConn.readLoop() after every successful read.
 	// Note: There has a race condition in this SetReadDeadline() call and the one in
 	// readLoop(). It's not a big problem.
+	verifhook.PointArg("tdc.exchange.written", dc.c)
 	if dc.waitingResp.CompareAndSwap(false, true) {
+		verifhook.PointArg("tdc.exchange.arming", dc.c)
 		dc.c.SetReadDeadline(time.Now().Add(waitingReplyTimeout))
 	}
 
@@ -187,6 +191,7 @@ func (dc *TraditionalDnsConn) readLoop() {
 			return
 		}
 		dc.waitingResp.Store(false)
+		verifhook.PointArg("tdc.readloop.read", dc.c)
 
 		rid := binary.BigEndian.Uint16(*r)
 		resChan := dc.getQueueC(rid)
@@ -199,6 +204,7 @@ func (dc *TraditionalDnsConn) readLoop() {
 		} else {
 			pool.ReleaseBuf(r)
 		}
+		verifhook.PointArg("tdc.readloop.dispatched", dc.c)
 	}
 }
 
